@@ -29,7 +29,7 @@ ASSUMPTIONS = [
     "precondition of IDENTIFY respected by construction: C non-empty, C subset of T, G[C] has a single district, topo is a topological order of G",
 ]
 BUDGET = {
-    "quick": dict(examples=90, shards=16, seconds=200),
+    "quick": dict(examples=150, shards=16, seconds=200),
     "thorough": dict(examples=1500, shards=16, seconds=2400),
 }
 ESSENTIAL_LABELS = {t: ["answered-proper-subset", "fail", "lemma4", "lemma1"] for t in ("quick", "thorough")}
